@@ -26,14 +26,21 @@ theorem run_no_panic (c : Case) (hd : inDomain c = true) (he : c.recs.all (embOk
 
 /-! ### BMP -/
 
-/-- Every BMP message the model writes — whatever its kind and content — starts with version 3, the
-    message type of its kind and a length field equal to the number of bytes of the whole message:
-    cutting the stream by the length field returns exactly this message and leaves the rest. -/
-theorem bmp_len_exact (r : Rec) (w : Bytes) (hb : isBmp r = true) (he : r.encode = some w)
-    (hl : w.length < 4294967296) :
-    ∃ body, w.length = 6 + body.length ∧ be ((w.drop 1).take 4) = w.length ∧
-      ∀ rest, readBmpCommon (w ++ rest) = some (3, bmpType r, body, rest) :=
-  bmp_len_exact_proof r w hb he hl
+/-- A BMP message (version 3, back-patched length, type, body) carries in its length field the number of bytes
+    of the whole message: cutting the stream by the length field returns exactly this message and leaves the
+    rest. -/
+theorem bmp_msg_len_exact (code : Nat) (body : Bytes) (hc : code < 256) (hl : 6 + body.length < 4294967296) :
+    (bmpMsg code body).length = 6 + body.length ∧
+      be (((bmpMsg code body).drop 1).take 4) = (bmpMsg code body).length ∧
+      ∀ rest, readBmpCommon (bmpMsg code body ++ rest) = some (3, code, body, rest) :=
+  bmpMsg_len_exact code body hc hl
+
+/-- Whatever the model writes for a BMP item - of any kind and content - is a sequence of such messages of the
+    item's type: exactly one, except for Route Monitoring, which writes one message per embedded BGP frame. -/
+theorem bmp_len_exact (r : Rec) (w : Bytes) (hb : isBmp r = true) (he : r.encode = some w) :
+    ∃ bodies : List Bytes, w = bodies.flatMap (bmpMsg (bmpType r)) ∧
+      ((match r with | .bmpRm .. => False | _ => True) → bodies.length = 1) :=
+  bmp_len_exact_proof r w hb he
 
 /-- Per-peer header (RFC 7854 §4.2): when the caller does not pass the V bit itself (the daemon passes 0, L, O
     or L|O), the header is 42 bytes, its V flag is set iff the peer address is IPv6, the 16-byte address field
@@ -52,49 +59,47 @@ example :
                          bgpId := [10, 0, 0, 1], ts := 0 }
     (readPph h.encode).map (fun p => (p.1.flags / 128 % 2, h.addr.isV6)) = some (1, false) := by decide
 
-/-- `IsFrame`-style reading of the hypothesis of the round-trip theorems. -/
-theorem updOk_of_isFrame {tbl : Tbl} {ap : Bool} {mon c : Content} {b : Bytes} (hf : IsFrame 2 b)
-    (hl : lookup tbl ap b = some c) (hc : carries ap mon [c] = true) : updOk tbl ap mon b = true := by
-  simp [updOk, frames_single hf, hl, hc]
+/-- Route Monitoring, ANY number of NLRI (**full strength**, a theorem since the S29 repair: one Route Monitoring
+    message per BGP frame).  If the bytes the BGP encoder produced are complete UPDATE frames that the decoder
+    reads back (with the session's add-path setting) as compatible pieces of the monitored UPDATE - same family,
+    next hop and attributes, at least one NLRI each, together exactly the monitored NLRI - then the records are
+    accepted: every frame in a message of its own with an exact length and the intended per-peer header. -/
+theorem bmp_embedded_roundtrip_full (tbl : Tbl) (np : Option Nat) (h : PeerHdr) (ap : Bool) (mon : Content)
+    (fcs : List (Bytes × Content)) (hh : hdrDom h = true) (hm : monDom mon = true) (hne : fcs ≠ [])
+    (hf : ∀ p ∈ fcs, IsFrame 2 p.1 ∧ p.1.length < 2147483648 ∧ lookup tbl ap p.1 = some p.2 ∧
+      compat mon p.2 = true ∧ entsOf p.2 ≠ [])
+    (hall : entsEq ap ((fcs.map (·.2)).flatMap entsOf) (entsOf mon) = true) (rest : Bytes) :
+    checkRec tbl np (.bmpRm h ap (some ((fcs.map (·.1)).flatMap id)) mon)
+      (((splitFrames ((fcs.map (·.1)).flatMap id).length ((fcs.map (·.1)).flatMap id)).flatMap
+        fun f => bmpMsg 0 (h.encode ++ f)) ++ rest) = .ok rest :=
+  checkRec_bmpRm tbl np h ap _ mon (by simp [recDom, hh, hm])
+    (by simpa [embOk] using updOk_of_frames tbl ap mon fcs hne hf hall) rest
 
-/-- Route Monitoring, ONE embedded PDU: if the bytes the BGP encoder produced are one complete UPDATE frame
-    that the decoder reads back (with the session's add-path setting) as the monitored prefixes / attributes /
-    next hop, the record is accepted: common header length exact, per-peer header as intended, the body after
-    it is exactly that PDU. -/
-theorem bmp_embedded_roundtrip_partial (tbl : Tbl) (np : Option Nat) (h : PeerHdr) (ap : Bool) (b : Bytes)
-    (mon c : Content) (hh : hdrDom h = true) (hm : monDom mon = true) (hlen : b.length < 65536)
-    (hf : IsFrame 2 b) (hl : lookup tbl ap b = some c) (hc : carries ap mon [c] = true) (rest : Bytes) :
+/-- the same for BGP4MP: one MRT record per BGP frame -/
+theorem mrt_embedded_roundtrip_full (tbl : Tbl) (np : Option Nat) (h : MpHdr) (ap : Bool) (mon : Content)
+    (fcs : List (Bytes × Content))
+    (hd : recDom np (.mrtMp h ap (some ((fcs.map (·.1)).flatMap id)) mon) = true) (hne : fcs ≠ [])
+    (hf : ∀ p ∈ fcs, IsFrame 2 p.1 ∧ p.1.length < 2147483648 ∧ lookup tbl ap p.1 = some p.2 ∧
+      compat mon p.2 = true ∧ entsOf p.2 ≠ [])
+    (hall : entsEq ap ((fcs.map (·.2)).flatMap entsOf) (entsOf mon) = true) (rest : Bytes) :
+    checkRec tbl np (.mrtMp h ap (some ((fcs.map (·.1)).flatMap id)) mon)
+      (((splitFrames ((fcs.map (·.1)).flatMap id).length ((fcs.map (·.1)).flatMap id)).flatMap
+        fun f => mrtRecord 0 16 (mpSubtype h.asn4 ap) (h.encode ++ f)) ++ rest) = .ok rest :=
+  checkRec_mrtMp tbl np h ap _ mon hd
+    (by simpa [embOk] using updOk_of_frames tbl ap mon fcs hne hf hall) rest
+
+/-- Route Monitoring, ONE embedded PDU (covers End-of-RIB too): one complete UPDATE frame that the decoder reads
+    back as the monitored message gives one message whose body after the per-peer header is exactly that PDU. -/
+theorem bmp_embedded_roundtrip_single (tbl : Tbl) (np : Option Nat) (h : PeerHdr) (ap : Bool) (b : Bytes)
+    (mon c : Content) (hh : hdrDom h = true) (hm : monDom mon = true) (hlen : b.length < 2147483648)
+    (hf : IsFrame 2 b) (hl : lookup tbl ap b = some c) (hc : compat mon c = true)
+    (he : entsEq ap (entsOf c) (entsOf mon) = true) (rest : Bytes) :
     checkRec tbl np (.bmpRm h ap (some b) mon) (bmpMsg 0 (h.encode ++ b) ++ rest) = .ok rest :=
-  checkRec_bmpRm tbl np h ap b mon (by simp [recDom, hh, hm])
-    (by simp [embOk, hlen, updOk_of_isFrame hf hl hc]) rest
-
-/-- Hypothesis of the full-strength statement: the blob is any number (≥ 1) of complete UPDATE frames whose
-    decoded contents JOINTLY carry the monitored message — what `PeerCodec::encode_to` produces when it
-    splits an UPDATE that does not fit one message. -/
-def updOkMulti (tbl : Tbl) (ap : Bool) (mon : Content) (b : Bytes) : Bool :=
-  match bgpFrames (b.length + 1) b with
-  | some fs =>
-    fs.all (fun f => decide (f.2 = 2)) &&
-      (match fs.mapM (fun f => lookup tbl ap f.1) with
-       | some cs => carries ap mon cs
-       | none => false)
-  | none => false
+  bmp_single_proof tbl np h ap b mon c hh hm hlen hf hl hc he rest
 
 def accepted : Except String Bytes → Bool
   | .ok _ => true
   | .error _ => false
-
-/-- Full-strength statement (any number of NLRI, i.e. also UPDATEs that the BGP encoder splits): NOT a theorem. -/
-def bmp_embedded_roundtrip_full : Prop :=
-  ∀ (tbl : Tbl) (h : PeerHdr) (ap : Bool) (b : Bytes) (mon : Content),
-    hdrDom h = true → monDom mon = true → b.length < 65536 → updOkMulti tbl ap mon b = true →
-      accepted (checkRec tbl none (.bmpRm h ap (some b) mon) (bmpMsg 0 (h.encode ++ b))) = true
-
-def mrt_embedded_roundtrip_full : Prop :=
-  ∀ (tbl : Tbl) (h : MpHdr) (ap : Bool) (b : Bytes) (mon : Content),
-    recDom none (.mrtMp h ap (some b) mon) = true → b.length < 65536 → updOkMulti tbl ap mon b = true →
-      accepted (checkRec tbl none (.mrtMp h ap (some b) mon)
-        (mrtRecord 0 16 (mpSubtype h.asn4 ap) (h.encode ++ b))) = true
 
 namespace S29
 /-- two complete (23-byte) UPDATE frames; the decoder table says they withdraw one prefix each -/
@@ -109,20 +114,16 @@ def mph : MpHdr :=
 end S29
 
 set_option maxRecDepth 100000 in
-/-- S29: with two frames in one Route Monitoring message every hypothesis of the full statement holds, yet the
-    record is rejected (`rm-not-single-pdu`).  The replay on the real code is corpus/C19/finding-s29-multi-frame.case. -/
-theorem bmp_embedded_roundtrip_full_false : ¬ bmp_embedded_roundtrip_full := by
-  intro h
-  have := h S29.tbl S29.hdr false (S29.f1 ++ S29.f2) S29.mon (by decide) (by decide) (by decide) (by decide)
-  revert this
-  decide
-
-set_option maxRecDepth 100000 in
-theorem mrt_embedded_roundtrip_full_false : ¬ mrt_embedded_roundtrip_full := by
-  intro h
-  have := h S29.tbl S29.mph false (S29.f1 ++ S29.f2) S29.mon (by decide) (by decide) (by decide)
-  revert this
-  decide
+/-- non-vacuity of the full-strength theorems (two frames), and the pre-repair layout - both frames in ONE Route
+    Monitoring message / BGP4MP record - is rejected by the checker (`rm-not-single-pdu`): S29. -/
+example :
+    embOk S29.tbl (.bmpRm S29.hdr false (some (S29.f1 ++ S29.f2)) S29.mon) = true ∧
+    (Rec.bmpRm S29.hdr false (some (S29.f1 ++ S29.f2)) S29.mon).encode =
+      some (bmpMsg 0 (S29.hdr.encode ++ S29.f1) ++ bmpMsg 0 (S29.hdr.encode ++ S29.f2)) ∧
+    accepted (checkRec S29.tbl none (.bmpRm S29.hdr false (some (S29.f1 ++ S29.f2)) S29.mon)
+      (bmpMsg 0 (S29.hdr.encode ++ (S29.f1 ++ S29.f2)))) = false ∧
+    accepted (checkRec S29.tbl none (.mrtMp S29.mph false (some (S29.f1 ++ S29.f2)) S29.mon)
+      (mrtRecord 0 16 4 (S29.mph.encode ++ (S29.f1 ++ S29.f2)))) = false := by decide
 
 /-- Peer Up: local address in the family the V flag announces, both ports, and exactly the two OPEN PDUs
     (sent, received) that decode to the monitored OPENs. -/
@@ -143,13 +144,21 @@ theorem bmp_peer_down_ok (tbl : Tbl) (np : Option Nat) (h : PeerHdr) (r : DownRe
 
 /-! ### MRT -/
 
-/-- Every MRT record the model writes carries in its common header the number of bytes that follow it. -/
-theorem mrt_len_exact (r : Rec) (w : Bytes) (hb : isBmp r = false) (he : r.encode = some w)
-    (hts : match r with | .tdPeers ts .. => ts < 4294967296 | .tdRib _ ts .. => ts < 4294967296 | _ => True)
-    (hl : w.length < 4294967296) :
-    ∃ ts ty st body, w.length = 12 + body.length ∧ be ((w.drop 8).take 4) = body.length ∧
-      ∀ rest, readMrtCommon (w ++ rest) = some (ts, ty, st, body, rest) :=
-  mrt_len_exact_proof r w hb he hts hl
+/-- An MRT record (timestamp, type, subtype, back-patched length, body) carries in its common header the number
+    of bytes that follow it. -/
+theorem mrt_record_len_exact (ts code sub : Nat) (body : Bytes) (h1 : ts < 4294967296) (h2 : code < 65536)
+    (h3 : sub < 65536) (hl : body.length < 4294967296) :
+    (mrtRecord ts code sub body).length = 12 + body.length ∧
+      be (((mrtRecord ts code sub body).drop 8).take 4) = body.length ∧
+      ∀ rest, readMrtCommon (mrtRecord ts code sub body ++ rest) = some (ts, code, sub, body, rest) :=
+  mrtRecord_len_exact ts code sub body h1 h2 h3 hl
+
+/-- Whatever the model writes for an MRT item is a sequence of such records: exactly one, except for BGP4MP,
+    which writes one record per embedded BGP frame. -/
+theorem mrt_len_exact (r : Rec) (w : Bytes) (hb : isBmp r = false) (he : r.encode = some w) :
+    ∃ (ts ty st : Nat) (bodies : List Bytes), w = bodies.flatMap (mrtRecord ts ty st) ∧ ty < 65536 ∧ st < 65536 ∧
+      ((match r with | .mrtMp .. => False | _ => True) → bodies.length = 1) :=
+  mrt_len_exact_proof r w hb he
 
 /-- BGP4MP header (RFC 6396 §4.4.3): for a 4-byte-AS header whose peer and local address are of the same
     family (they are the two ends of one TCP session), the AFI is 2 iff the addresses are IPv6, both address
@@ -164,12 +173,13 @@ theorem mrt_afi_matches_addrs (h : MpHdr) (h4 : h.asn4 = true) (hw : ipWf h.radd
     bgp4mpSubtype (mpSubtype h.asn4 ap) = some (4, ap) :=
   mrt_afi_matches_addrs_proof h h4 hw hfam ap
 
-/-- and the checker accepts the whole BGP4MP record (single embedded UPDATE) -/
-theorem mrt_embedded_roundtrip_partial (tbl : Tbl) (np : Option Nat) (h : MpHdr) (ap : Bool) (b : Bytes)
+/-- and the checker accepts the BGP4MP record(s) of the item under the hypotheses `embOk` on the embedded bytes -/
+theorem mrt_embedded_roundtrip (tbl : Tbl) (np : Option Nat) (h : MpHdr) (ap : Bool) (b : Bytes)
     (mon : Content) (hd : recDom np (.mrtMp h ap (some b) mon) = true)
     (he : embOk tbl (.mrtMp h ap (some b) mon) = true) (rest : Bytes) :
     checkRec tbl np (.mrtMp h ap (some b) mon)
-      (mrtRecord 0 16 (mpSubtype h.asn4 ap) (h.encode ++ b) ++ rest) = .ok rest :=
+      (((splitFrames b.length b).flatMap fun f => mrtRecord 0 16 (mpSubtype h.asn4 ap) (h.encode ++ f)) ++ rest)
+      = .ok rest :=
   checkRec_mrtMp tbl np h ap b mon hd he rest
 
 set_option maxRecDepth 100000 in
@@ -254,7 +264,7 @@ example : inDomain Ex.c = true ∧ Ex.c.recs.all (embOk Ex.c.tbl) = true := by d
 set_option maxRecDepth 100000 in
 /-- the single-frame hypotheses of `bmp_embedded_roundtrip_partial` are satisfiable -/
 example : IsFrame 2 Ex.upd ∧ lookup Ex.c.tbl true Ex.upd = some (.eor 65537) ∧
-    carries true (.eor 65537) [.eor 65537] = true := by decide
+    compat (.eor 65537) (.eor 65537) = true := by decide
 
 /-! ### the daemon-side converters (daemon/src/bmp.rs, daemon/src/mrt.rs) -/
 
